@@ -585,6 +585,69 @@ func checkC11(e *Env, r *Report) {
 			recs = append(recs, map[string]any{"ev": "sort", "id": "sort:" + k + ":" + strings.Join(ids, " | "), "results": results, "resorted": resorted})
 		}
 	}
+	// the field lattice of every kind (the value table of C09/C12): from the rule with every field absent, and
+	// from the rules with every field at its first / second value, each field alone is moved through all its
+	// values - so every pair "field absent / field given", "this value / the next one" meets in one matrix
+	for _, sc := range ruleSchemas {
+		if sc.Kind == "comment" {
+			continue
+		}
+		skip := map[string]bool{"Comment": true, "FileInherit": true, "NoNewPrivs": true, "Optional": true}
+		vecs := [][]int{}
+		seenV := map[string]bool{}
+		addV := func(v []int) {
+			k := fmt.Sprint(v)
+			if !seenV[k] {
+				seenV[k] = true
+				vecs = append(vecs, append([]int{}, v...))
+			}
+		}
+		for level := 0; level < 3; level++ {
+			base := make([]int, len(sc.Fields))
+			for i, fc := range sc.Fields {
+				if !skip[fc.Field] {
+					base[i] = min(level, len(fc.Choices)-1)
+				}
+			}
+			addV(base)
+			for i, fc := range sc.Fields {
+				if skip[fc.Field] {
+					continue
+				}
+				for c := range fc.Choices {
+					v := append([]int{}, base...)
+					v[i] = c
+					addV(v)
+				}
+			}
+		}
+		rules := aa.Rules{}
+		texts := []string{}
+		for _, v := range vecs {
+			x, err := buildRule(&sc, v)
+			if err != nil {
+				continue
+			}
+			rules = append(rules, x)
+			texts = append(texts, fmt.Sprintf("%s%v %s", sc.Kind, v, strings.TrimSpace(x.String())))
+		}
+		n := len(rules)
+		if n < 2 {
+			continue
+		}
+		m := make([][]int, n)
+		same := make([][]bool, n)
+		abs := abstractRules(rules)
+		for i := 0; i < n; i++ {
+			m[i] = make([]int, n)
+			same[i] = make([]bool, n)
+			for j := 0; j < n; j++ {
+				m[i][j] = sgn(rules[i].Compare(rules[j]))
+				same[i][j] = reflect.DeepEqual(abs[i], abs[j])
+			}
+		}
+		recs = append(recs, map[string]any{"ev": "cmp", "id": "cmp:lattice:" + sc.Kind, "kind": sc.Kind, "texts": texts, "m": m, "same": same})
+	}
 	// sub-profiles (built as structs: name, attachments, xattrs map, flags): comparing twice must give the
 	// same sign (a map is walked in random order), a profile equals itself
 	{
